@@ -88,7 +88,8 @@ Proof. exact HeaderProofs.d22_refuted. Qed.
 Print Assumptions c19_d22_refuted.
 
 (* heap objects: a matched deletion (new/del, new_root/del_root, new_raw/del_raw, alloc_raw/dealloc_raw,
-   run-time type/del_raw, or reclamation by a sweep) followed by ANY number of further sweeps passes the
+   run-time type/del_raw, reclamation by a sweep, or del issued while the collector is stopped and carried out by
+   the next sweep) followed by ANY number of further sweeps passes the
    block to free exactly once; roots and raw objects are never released by sweeps *)
 Theorem c19_heap_released_exactly_once :
   forall ngc p T K V ops n, valid p T K V = true ->
@@ -100,6 +101,7 @@ Print Assumptions c19_heap_released_exactly_once.
 Example c19_heap_once_nonvacuous :
   matched_total (cfg_src false) PNew (OpDel :: OpSweep :: OpSweep :: nil) = Some 1 /\
   matched_total (cfg_src false) PNewRoot (OpSweep :: nil) = Some 0 /\
+  matched_total (cfg_src false) PNew (OpDelStopped :: OpSweep :: OpSweep :: nil) = Some 1 /\
   frees (m_run (cfg_src false) (OpDel :: OpSweep :: OpSweep :: nil) (m_produce (cfg_src false) PNew TString TInt TInt)) = 1.
 Proof. repeat split. Qed.
 
